@@ -42,6 +42,7 @@ def machine(path, wd_holder, sfile, rname, mem, args, use_z3=True):
     ins = asmlift.routine(funcs, PRE + rname)
     dom = WordDomain(consts=U.SHARED.get("consts"))
     dom.use_z3 = use_z3
+    dom.incremental = True
     m = asmword.Machine(dom, path, ins, rname, mem, args)
     return dom, m
 
